@@ -1682,7 +1682,7 @@ impl FunctionCompiler<'_> {
                 default,
                 ..
             } => {
-                let sum_ty = self.tys[self.loc][scrutinee];
+                let sum_ty = self.tys[self.loc][scrutinee].absolute_intern_ty(false);
 
                 let arm_blocks: Vec<_> = arms
                     .iter()
